@@ -3,6 +3,7 @@ import json, os
 from engine.wrappers import sheet, guards, diff, TYPES
 from engine.facts import VERIF
 from engine.effects import writes_of, lvalue_root
+from engine.util import assigned_lvalues
 
 EXPLANATION = ('Decides: (ENTRY) every public function taking a handle validates it (NULL test, magic test) before any other use and clears the error, except the frozen '
                'error-query / light-weight sets; (GUARD-ERR) every rejecting early return of an API function records a non-zero SFE_* code (psf->error or sf_errno) or returns one, '
@@ -238,6 +239,16 @@ def run(ctx):
         s = f.s(e)
         if s.startswith('SndfileErrors[') and s.endswith('.str'):
             continue
+        # the message field of an entry reached through a pointer that walks the table (every definition of the pointer is the table, an element of it, or a step)
+        if e['k'] == 'MemberExpr' and e.get('n') == 'str':
+            base = f.unwrap(f.N[e['kids'][0]])
+            if base.get('k') == 'DeclRefExpr' and base.get('dk') == 'local':
+                defs_ = [(a_, r_) for lv_, a_, r_ in assigned_lvalues(f) if lv_ == base['n']]
+                inits_ = [f.N[d_['init']] for n_ in f.walk() if n_['k'] == 'DeclStmt' for d_ in n_.get('decls', []) if d_['n'] == base['n'] and d_.get('init') is not None and d_['init'] >= 0]
+                srcs = [r_ for a_, r_ in defs_ if a_.get('op') == '=' and r_ is not None] + inits_
+                steps_ok = all(a_.get('op') in ('=', '++', 'post++', '+=') for a_, r_ in defs_)
+                if srcs and steps_ok and all(any(x['k'] == 'DeclRefExpr' and x.get('n') == 'SndfileErrors' for x in f.walk(r_)) for r_ in srcs):
+                    continue
         if e['k'] == 'DeclRefExpr' and e['dk'] == 'static_local':
             g = prog.global_(e['n'], 'sf_error_number')
             if isinstance(g.get('init'), str) and g['init'].strip():
